@@ -309,3 +309,19 @@ Lemma dollar_name_witness :
   is_legal_key [36; 97] = true /\ is_reserved [36; 97] = false
   /\ plain_rt [36; 97] [98] = Some GDefault.
 Proof. vm_compute. repeat split. Qed.
+
+(* the attribute / getunicode read path: the mirror image of F18a (finding F18d) *)
+Definition attr_rt (name v : str) : option (@qres unit) :=
+  match set_cookie unit no_mac no_dumps [] name (CStr v) None with
+  | inl j => match emit_cookies j with
+             | Some [w] => Some (qread unit no_mac no_loads (Some w) (QAttr name true))
+             | _ => None
+             end
+  | inr _ => None
+  end.
+
+Lemma attr_read_witnesses :
+  attr_rt [97] [99; 97; 102; 233] = Some (QRStr None)               (* 'café' reads as the default *)
+  /\ attr_rt [97] [1103] = Some (QRStr (Some [1103]))                (* U+044F comes back intact *)
+  /\ attr_rt [97] [194; 163] = Some (QRStr (Some [163])).            (* Latin-1 text that is valid UTF-8 is altered *)
+Proof. vm_compute. repeat split. Qed.
